@@ -58,8 +58,8 @@ def implies_ge(op, a_is_first, edge_true):
 def sub_guarded(ctx, b, bb, a_op, b_op):
     """Is the subtraction a - b in block bb dominated by a comparison edge that implies a >= b (same locals,
     not reassigned in between)?"""
-    ra = root_local(b, a_op)
-    rb = root_local(b, b_op)
+    ra = root_local(b, a_op, fields=True)
+    rb = root_local(b, b_op, fields=True)
     if ra is None or rb is None:
         # constant operand: a - const or const - b
         return False, "constant operand"
@@ -68,8 +68,8 @@ def sub_guarded(ctx, b, bb, a_op, b_op):
         if c is None:
             continue
         op, x, y, t_true, t_false = c
-        rx = root_local(b, x)
-        ry = root_local(b, y)
+        rx = root_local(b, x, fields=True)
+        ry = root_local(b, y, fields=True)
         for (edge_t, is_true) in ((t_true, True), (t_false, False)):
             if edge_t is None or not cfgutil.edge_dominates(b, (sw, edge_t), bb):
                 continue
@@ -97,6 +97,7 @@ def _reassigned_between(b, start, end, locals_, sw=None):
         work.extend(b.preds(x))
     region = fwd & back
     locs = set(l for l in locals_ if isinstance(l, int))
+    places = set((l[1], l[2]) for l in locals_ if isinstance(l, tuple) and l and l[0] == "place")
     for x in region:
         if x == end:
             # statements before the subtraction in the same block are copies; ignore
@@ -104,6 +105,20 @@ def _reassigned_between(b, start, end, locals_, sw=None):
         for s in b.stmts(x):
             if s["k"] == "assign" and not s["lhs"]["p"] and s["lhs"]["l"] in locs and x != start:
                 return True
+            if s["k"] == "assign" and s["lhs"]["p"] and places and x != start and \
+                    cfgutil.canon_place(b, s["lhs"]) in places:
+                return True
+        t = b.blocks[x]["term"]
+        if places and t["k"] == "call" and x != start:
+            # a call that is handed `&mut` to the struct may change the field
+            for a in t["args"]:
+                pl = place_of(a)
+                if pl is not None and not pl["p"]:
+                    ty = b.prog.types[b.locals[pl["l"]]]
+                    if ty.get("k") == "ref" and ty.get("mut"):
+                        c = cfgutil.canon_of_borrow(b, a)
+                        if c is not None and any(c[0] == pl2[0] and pl2[1][:len(c[1])] == c[1] for pl2 in places):
+                            return True
     return False
 
 
@@ -159,17 +174,33 @@ def rules(ctx, tier):
 
     r = Rule("R2", "every subtraction on the range path is guarded by a comparison of the same two values",
              "start > end (or a stale accumulator) underflows: panic in debug, a huge length in release")
+    # judged in the range views where the function is part of one (the guard may be a loop condition of the caller,
+    # the operands fields of a progress struct updated by `&mut self` helpers), otherwise in its own body
+    judged = {}
+    for (V, fs, root) in views:
+        for vbb in V.normal_blocks():
+            ok_key = V.origin_key(vbb)
+            for (lhs, op, a, bo) in binops_in(V, vbb):
+                if op not in SUB_OPS:
+                    continue
+                sp = V.blocks[vbb]["span"]
+                if sp.get("exp") and "tracing" in (sp.get("outer") or ""):
+                    continue
+                ok, why = sub_guarded(ctx, V, vbb, a, bo)
+                prev = judged.get(ok_key)
+                judged[ok_key] = (ok and (prev[0] if prev else True), why if not ok or prev is None else prev[1])
     for p in sorted(reach):
         b = prog.bodies[p]
-        if "CAS" not in b.module and not any(s.body.path == p for s in rsites) and not b.is_closure:
-            pass
         for bb in b.normal_blocks():
             for (lhs, op, a, bo) in binops_in(b, bb):
                 if op not in SUB_OPS:
                     continue
                 if b.blocks[bb]["span"].get("exp") and "tracing" in (b.blocks[bb]["span"].get("outer") or ""):
                     continue
-                ok, why = sub_guarded(ctx, b, bb, a, bo)
+                if (p, bb) in judged:
+                    ok, why = judged[(p, bb)]
+                else:
+                    ok, why = sub_guarded(ctx, b, bb, a, bo)
                 r.check(ok, "sub:%s" % b.path.split("::")[-1], b,
                         "subtraction at %s:%d guarded by %s" % (b.file, b.blocks[bb]["span"]["line"], why),
                         "subtraction at %s:%d is not guarded: %s" % (b.file, b.blocks[bb]["span"]["line"], why),
@@ -428,6 +459,45 @@ def reject_polarity(ctx, r, views, size_f):
                 "the range read at %s is not preceded by the `start >= size` early exit" % site_where(fsite), site_where(fsite))
 
 
+def _place_defs(prog, b, key):
+    """Definitions of a struct field identified by its canonical place (local, field names): direct assignments to the
+    field, and the field's operand in an aggregate that initialises the whole struct.  Same shape as
+    Body.assignments() entries: (bb, index, rvalue)."""
+    out = []
+    l0, names = key
+    for bb in b.normal_blocks():
+        for j, st in enumerate(b.stmts(bb)):
+            if st["k"] != "assign":
+                continue
+            lhs = st["lhs"]
+            if lhs["p"] and cfgutil.canon_place(b, lhs) == key:
+                out.append((bb, j, st["rv"]))
+            elif st["rv"]["k"] == "agg" and st["rv"].get("ak") == "adt" and len(names) >= 1 and \
+                    names[-1] in (st["rv"].get("fields") or []):
+                # `fill = RangeFill { .., next_offset: start }` (possibly in an inlined constructor and moved out)
+                who = cfgutil.canon_place(b, lhs) if lhs["p"] else (lhs["l"], ())
+                if _flows_to(b, who[0], l0) and who[1] == names[:-1]:
+                    idx = st["rv"]["fields"].index(names[-1])
+                    out.append((bb, j, {"k": "use", "op": st["rv"]["ops"][idx]}))
+    return out
+
+
+def _flows_to(b, src, dst, depth=0):
+    """Is local `src` moved (whole) into local `dst` (through returns of inlined constructors)?"""
+    if src == dst:
+        return True
+    if depth > 6:
+        return False
+    for l, defs in b.assignments().items():
+        for (bb, j, rv) in defs:
+            if j != "term" and rv["k"] == "use":
+                pl = place_of(rv["op"])
+                if pl is not None and not pl["p"] and pl["l"] == src and l != src:
+                    if _flows_to(b, l, dst, depth + 1):
+                        return True
+    return False
+
+
 def accumulators(ctx, r, site):
     """site: the positional read in the loop."""
     b = site.body
@@ -469,8 +539,11 @@ def accumulators(ctx, r, site):
     # offset argument of the read = an accumulator initialised from a parameter and advanced only by n
     off = site.term["args"][2] if len(site.term["args"]) > 2 else None
     if off is not None:
-        ro = root_local(b, off)
-        defs = b.assignments().get(ro, []) if isinstance(ro, int) else []
+        ro = root_local(b, off, fields=True)
+        if isinstance(ro, tuple) and ro and ro[0] == "place":
+            defs = _place_defs(prog, b, (ro[1], ro[2]))     # the offset lives in a field of a progress struct
+        else:
+            defs = b.assignments().get(ro, []) if isinstance(ro, int) else []
         init_param = False
         adv = False
         other = False
